@@ -140,8 +140,16 @@ func (dcd *DeadCodeDetector) Detect() *DeadCodeResult {
 	}
 
 	// Sort findings by line number for consistent output
+	// (end line and block ID break ties so the order does not depend on map iteration)
 	sort.Slice(result.Findings, func(i, j int) bool {
-		return result.Findings[i].StartLine < result.Findings[j].StartLine
+		a, b := result.Findings[i], result.Findings[j]
+		if a.StartLine != b.StartLine {
+			return a.StartLine < b.StartLine
+		}
+		if a.EndLine != b.EndLine {
+			return a.EndLine < b.EndLine
+		}
+		return lessBlockID(a.BlockID, b.BlockID)
 	})
 
 	result.AnalysisTime = time.Since(startTime)
@@ -164,7 +172,16 @@ func DetectInFunctionWithFilePath(cfg *CFG, filePath string) *DeadCodeResult {
 func DetectInFile(cfgs map[string]*CFG, filePath string) []*DeadCodeResult {
 	var results []*DeadCodeResult
 
-	for functionName, cfg := range cfgs {
+	// Iterate functions in a stable order (map iteration order is random)
+	functionNames := make([]string, 0, len(cfgs))
+	for functionName := range cfgs {
+		functionNames = append(functionNames, functionName)
+	}
+	sort.Strings(functionNames)
+
+	for _, functionName := range functionNames {
+		cfg := cfgs[functionName]
+
 		// Skip the main module CFG for now, focus on functions
 		if functionName == "__main__" {
 			continue
@@ -240,6 +257,13 @@ func (dcd *DeadCodeDetector) findTerminatorInPredecessors(block *BasicBlock) (De
 	// This handles cases where CFG edges might not be perfectly set up
 	blockStartLine := dcd.getBlockStartLine(block)
 
+	// Several blocks may qualify; pick the nearest preceding terminator block
+	// (largest end line), then the smallest block ID, so that the result does
+	// not depend on map iteration order.
+	var nearest *BasicBlock
+	nearestEndLine := 0
+	var nearestReason DeadCodeReason
+
 	for _, otherBlock := range dcd.cfg.Blocks {
 		if otherBlock == nil || otherBlock == block {
 			continue
@@ -249,19 +273,21 @@ func (dcd *DeadCodeDetector) findTerminatorInPredecessors(block *BasicBlock) (De
 
 		// Check if the other block ends before this block starts (sequential in source)
 		if otherEndLine < blockStartLine && (blockStartLine-otherEndLine) <= 5 {
-			if dcd.blockContainsReturn(otherBlock) {
-				return ReasonUnreachableAfterReturn, SeverityLevelCritical
+			terminatorReason := dcd.blockTerminatorReason(otherBlock)
+			if terminatorReason == "" {
+				continue
 			}
-			if dcd.blockContainsBreak(otherBlock) {
-				return ReasonUnreachableAfterBreak, SeverityLevelCritical
-			}
-			if dcd.blockContainsContinue(otherBlock) {
-				return ReasonUnreachableAfterContinue, SeverityLevelCritical
-			}
-			if dcd.blockContainsRaise(otherBlock) {
-				return ReasonUnreachableAfterRaise, SeverityLevelCritical
+			if nearest == nil || otherEndLine > nearestEndLine ||
+				(otherEndLine == nearestEndLine && lessBlockID(otherBlock.ID, nearest.ID)) {
+				nearest = otherBlock
+				nearestEndLine = otherEndLine
+				nearestReason = terminatorReason
 			}
 		}
+	}
+
+	if nearest != nil {
+		return nearestReason, SeverityLevelCritical
 	}
 
 	// Secondary check: use CFG edges if available
@@ -296,6 +322,34 @@ func (dcd *DeadCodeDetector) findTerminatorInPredecessors(block *BasicBlock) (De
 	}
 
 	return "", SeverityLevelWarning
+}
+
+// lessBlockID orders block IDs of the form "bb<N>" numerically
+// (shorter IDs first, then lexicographically).
+func lessBlockID(a, b string) bool {
+	if len(a) != len(b) {
+		return len(a) < len(b)
+	}
+	return a < b
+}
+
+// blockTerminatorReason returns the dead code reason implied by a terminator
+// statement in the block (return, break, continue, raise - checked in that
+// order), or "" if the block contains no terminator.
+func (dcd *DeadCodeDetector) blockTerminatorReason(block *BasicBlock) DeadCodeReason {
+	if dcd.blockContainsReturn(block) {
+		return ReasonUnreachableAfterReturn
+	}
+	if dcd.blockContainsBreak(block) {
+		return ReasonUnreachableAfterBreak
+	}
+	if dcd.blockContainsContinue(block) {
+		return ReasonUnreachableAfterContinue
+	}
+	if dcd.blockContainsRaise(block) {
+		return ReasonUnreachableAfterRaise
+	}
+	return ""
 }
 
 // blockContainsReturn checks if a block contains a return statement
